@@ -219,14 +219,14 @@ func runC08(c *Ctx) {
 	}
 	confs := []conf{{true, false, false, false}, {false, false, false, false}, {true, true, false, false}, {true, false, true, false}, {false, false, false, true}}
 	n, f := 2, 1
-	n3 := false
+	n3 := true
 	if c.Thorough() {
-		n, f = 3, 2
 		confs = append(confs, conf{false, true, false, false}, conf{false, false, true, false}, conf{true, true, false, true})
-	} else {
-		n3 = true
 	}
 	faults := env.FaultSet{LostClose: true, AckLost: true}
+	if c.Thorough() {
+		c.Bound("workloads.deep", fmt.Sprintf("after everything else: all sequences of length<=3 over %v, all settled / all back-to-back / the last one during the reconnect handshake; faults %+v with F<=2; the same configurations", c08Alphabet(), faults))
+	}
 	c.Bound("workloads", fmt.Sprintf("all sequences of length<=%d over %v, requests either all settled ('S') or all back-to-back ('N') or the last one during the reconnect handshake ('H'); faults %+v with F<=%d; configurations (session kept, AlwaysResubscribe, CleanSession) %v", n, c08Alphabet(), faults, f, confs))
 	var sample *rcRun
 	run := func(name string, reqs []rcReq, cf conf, bound vrt.Budget) {
@@ -252,24 +252,27 @@ func runC08(c *Ctx) {
 			sample = r
 		}
 	}
-	for _, ph := range []byte{'S', 'N'} {
-		for _, reqs := range c08Workloads(n, ph) {
-			for _, cf := range confs {
-				run(fmt.Sprintf("N%d.F%d", n, f), reqs, cf, vrt.Budget{F: f})
+	mainPass := func(n, f int) {
+		for _, ph := range []byte{'S', 'N'} {
+			for _, reqs := range c08Workloads(n, ph) {
+				for _, cf := range confs {
+					run(fmt.Sprintf("N%d.F%d", n, f), reqs, cf, vrt.Budget{F: f})
+				}
+			}
+		}
+		// the last request submitted while the library is reconnecting
+		for _, reqs := range c08Workloads(n, 'S') {
+			if len(reqs) < 2 {
+				continue
+			}
+			rq := append([]rcReq(nil), reqs...)
+			rq[len(rq)-1].Phase = 'H'
+			for _, cf := range confs[:2] {
+				run(fmt.Sprintf("N%d.F%d.H", n, f), rq, cf, vrt.Budget{F: f})
 			}
 		}
 	}
-	// the last request submitted while the library is reconnecting
-	for _, reqs := range c08Workloads(n, 'S') {
-		if len(reqs) < 2 {
-			continue
-		}
-		rq := append([]rcReq(nil), reqs...)
-		rq[len(rq)-1].Phase = 'H'
-		for _, cf := range confs[:2] {
-			run(fmt.Sprintf("N%d.F%d.H", n, f), rq, cf, vrt.Budget{F: f})
-		}
-	}
+	mainPass(n, f)
 	// two faults on a small alphabet: a subscribe whose SUBACK is lost, then a second connection loss
 	focus := []c08Sym{{"sub", []string{"b:1"}}, {"sub", []string{"a:1", "b:2"}}, {"unsub", []string{"b"}}, {"p1", nil}}
 	for _, x := range focus {
@@ -363,6 +366,9 @@ func runC08(c *Ctx) {
 			}
 			run("N3.F1", reqs, confs[1], vrt.Budget{F: 1})
 		}
+	}
+	if c.Thorough() {
+		mainPass(3, 2)
 	}
 	if sample != nil {
 		c.Sample(map[string]any{"workload": rcName(sample.cfg.Reqs), "faults": sample.broker.FaultLog, "broker_table": sample.broker.SubsString(), "wire": sample.net.TraceStrings()})
